@@ -57,7 +57,7 @@ func registerResolver() {
 		ID: "C01", Pkg: "argmapper",
 		Quick: []Shard{
 			world("HarnessC01", 2, 1, 2, 0, 1, 0, 4), world("HarnessC01", 2, 1, 2, 11, 1, 0, 4),
-			world("HarnessC01", 6, 1, 1, 0, 1, 0, 32), world("HarnessC01", 2, 1, 2, 0, 1, 0, 32), world("HarnessC01", 6, 1, 2, 11, 1, 0, 32),
+			world("HarnessC01", 6, 1, 1, 0, 1, 0, 32), world("HarnessC01", 2, 1, 2, 0, 1, 0, 32),
 			world("HarnessC01", 11, 2, 1, 0, 1, 0), world("HarnessC01", 11, 1, 1, 11, 1, 100),
 			world("HarnessC01", 10, 1, 2, 11, 1, 0), world("HarnessC01", 10, 1, 1, 0, 1, 0),
 			world("HarnessC01", 1, 1, 2, 0, 0, 0), world("HarnessC01", 2, 1, 2, 0, 1, 0), world("HarnessC01", 3, 1, 1, 0, 9, 0), world("HarnessC01", 0, 1, 1, 11, 9, 0), world("HarnessC01", 1, 1, 1, 11, 1, 0), world("HarnessC01", 2, 1, 1, 11, 3, 1), world("HarnessC01", 6, 1, 1, 12, 1, 0, 4), world("HarnessC01", 5, 1, 1, 2111, 0, 0), world("HarnessC01", 100, 0, 0, 0, 1, 0), world("HarnessC01", 101, 0, 0, 0, 9, 0, 2), world("HarnessC01", 102, 0, 0, 0, 1, 0), world("HarnessC01", 103, 0, 0, 0, 1, 0), world("HarnessC01", 104, 0, 0, 0, 0, 0), world("HarnessC01", 106, 0, 0, 0, 1, 0), world("HarnessC01", 1, 1, 1, 11, 3, 0, 8), world("HarnessC01", 3, 1, 1, 0, 9, 0, 24), world("HarnessC01", 0, 1, 1, 11, 9, 0, 16), world("HarnessC01", 9, 1, 1, 11, 1, 0), world("HarnessC01", 108, 0, 0, 0, 1, 0), world("HarnessC01", 109, 0, 0, 0, 1, 0),
@@ -80,7 +80,7 @@ func registerResolver() {
 	register(&PropSpec{
 		ID: "C02", Pkg: "argmapper",
 		Quick: []Shard{
-			world("HarnessC02", 6, 1, 1, 0, 1, 0, 32), world("HarnessC02", 2, 1, 2, 0, 1, 0, 32), world("HarnessC02", 6, 1, 2, 11, 1, 0, 32),
+			world("HarnessC02", 6, 1, 1, 0, 1, 0, 32), world("HarnessC02", 2, 1, 2, 0, 1, 0, 32),
 			world("HarnessC02", 10, 1, 2, 11, 1, 0), world("HarnessC02", 10, 1, 1, 0, 1, 0), sh("HarnessShapes", "statically declared target whose struct reaches the marker only through an embedded struct: loose field values do not satisfy it", 0, 1),
 			world("HarnessC02", 1, 1, 2, 0, 0, 0), world("HarnessC02", 2, 1, 2, 0, 1, 0), world("HarnessC02", 3, 1, 1, 0, 9, 0), world("HarnessC02", 0, 1, 1, 11, 9, 0), world("HarnessC02", 1, 1, 1, 11, 1, 0), world("HarnessC02", 2, 1, 1, 11, 3, 1), world("HarnessC02", 5, 1, 1, 2121, 0, 0), world("HarnessC02", 100, 0, 0, 0, 1, 0), world("HarnessC02", 102, 0, 0, 0, 1, 0), world("HarnessC02", 103, 0, 0, 0, 1, 0), world("HarnessC02", 8, 1, 1, 0, 9, 0), world("HarnessC02", 8, 1, 1, 11, 1, 0), world("HarnessC02", 0, 1, 1, 21, 3, 0), world("HarnessC02", 109, 0, 0, 0, 1, 0),
 			sh("HarnessC02Static", "target struct with an embedded exported (non-marker) field that cannot be derived", 0, 0), sh("HarnessC02Static", "converter whose struct input has an underivable embedded exported field", 0, 1),
